@@ -23,7 +23,8 @@ class ToGFA1:
     a.append(ol2.name)
     a.append(ol2.orient)
     if self._alignment_type == "C":
-      a.append(str(self.pos))
+      # the GFA1 pos field is an integer: no last-position mark
+      a.append(str(gfapy.posvalue(self.pos)))
     try:
       self.overlap.validate(version = "gfa1")
     except:
